@@ -156,7 +156,8 @@ namespace ratio
             const auto &it_it = exprs.find(name);
             if (it_it == exprs.cend())
             {
-                assert(!get_core().get_ov_theory().value(ev).empty());
+                if (get_core().get_ov_theory().value(ev).empty())
+                    throw unsolvable_exception(); // every value has already been excluded: the problem is inconsistent at root-level..
                 if (auto vs = get_core().get_ov_theory().value(ev); vs.size() == 1)
                     return (static_cast<item *>(*vs.cbegin()))->get(name);
                 else
